@@ -83,6 +83,11 @@ func zzNewWorld() *zzWorld {
 	w := &zzWorld{}
 	w.node[0] = &protocol.Node{Id: 1, Address: "a:1"}
 	w.node[1] = &protocol.Node{Id: 2, Address: "b:1"}
+	if rt.Bound("SWAPID") > 0 && rt.Fork("B-has-the-smaller-identity") {
+		// which peer has the smaller address / cache key (matters to any repair that breaks the symmetry by identity)
+		w.node[0].Address, w.node[1].Address = "b:1", "a:1"
+		w.node[0].Id, w.node[1].Id = 2, 1
+	}
 	for i := 0; i < 2; i++ {
 		w.t[i] = NewQUIC(TransportConfig{Endpoint: w.node[i]})
 	}
@@ -326,7 +331,7 @@ func (w *zzWorld) initialState() (a, b *zzConn) {
 	return a, b
 }
 
-func zzScenario(dual bool, withInitial bool) {
+func zzScenario(second int, withInitial bool) {
 	w := zzNewWorld()
 	w.reap = rt.Fork("reaping-happens-within-the-scenario")
 	var ia, ib *zzConn
@@ -346,11 +351,17 @@ func zzScenario(dual bool, withInitial bool) {
 	w.wg.Add(2)
 	go w.negotiate(0, n1)
 	go w.negotiate(1, n1)
-	if dual {
+	switch second {
+	case zzOpposite:
 		n2 := w.newConn("N2", 1, true) // B dials A at the same time
 		w.wg.Add(2)
 		go w.negotiate(1, n2)
 		go w.negotiate(0, n2)
+	case zzDuplicate:
+		n2 := w.newConn("N2", 0, true) // A dials B a second time at the same moment (two callers of DialStream)
+		w.wg.Add(2)
+		go w.negotiate(0, n2)
+		go w.negotiate(1, n2)
 	}
 	w.wg.Wait() // a negotiation that never returns is reported as no-deadlock
 	w.quiesce()
@@ -452,14 +463,21 @@ func zzScenario(dual bool, withInitial bool) {
 	rt.Reach("end")
 }
 
+const (
+	zzNone      = iota // one negotiation only
+	zzOpposite         // plus a connection dialed the other way round at the same time
+	zzDuplicate        // plus a second connection dialed the same way round at the same time
+)
+
 // ZZ_C41_Single: one new connection (A dials B) negotiated by both peers, from every initial cache state.
-func ZZ_C41_Single() { zzScenario(false, true) }
+func ZZ_C41_Single() { zzScenario(zzNone, true) }
 
 // ZZ_C41_SimultaneousOpen: A dials B while B dials A (two connections, four negotiations), nothing cached before.
-func ZZ_C41_SimultaneousOpen() { zzScenario(true, false) }
+func ZZ_C41_SimultaneousOpen() { zzScenario(zzOpposite, false) }
 
 // ZZ_C41_SimultaneousOpenCached: the same from every initial cache state.
-func ZZ_C41_SimultaneousOpenCached() { zzScenario(true, true) }
+func ZZ_C41_SimultaneousOpenCached() { zzScenario(zzOpposite, true) }
 
-// probe
-func ZZ_C41_Probe() { zzScenario(false, false) }
+// ZZ_C41_DuplicateDial (probe, outside the statement's "dialing each other"): two goroutines of A dial B at the same
+// moment (getCachedConnection does not serialise dials to one peer), nothing cached before.
+func ZZ_C41_DuplicateDial() { zzScenario(zzDuplicate, false) }
